@@ -1078,7 +1078,11 @@ func doReadAll(req *Req) (resp Resp) {
 				if cut > prev && cut <= len(data) {
 					f.Write(data[prev:cut])
 					prev = cut
-					time.Sleep(12 * time.Millisecond)
+					pause := 12 * time.Millisecond
+					if req.N > 0 {
+						pause = time.Duration(req.N) * time.Millisecond // many small parts: shorter pauses
+					}
+					time.Sleep(pause)
 				}
 			}
 			f.Write(data[prev:])
